@@ -52,8 +52,9 @@ WORDS = ["starting", "worker", "done", "request", "failed to open", "retry", "ca
          "connected", "value is", "état", "naïve café", "日本語", "ok", "timeout after"]
 
 # shapes: name -> (structured_ok, unstructured_ok)
-UNSTRUCT_SHAPES = ["bare", "qual", "fmt", "target", "kv", "multi", "qual_fmt_multi", "esc", "kv_short", "kv_mixed"]
-STRUCT_SHAPES = ["bare", "qual", "fmt", "kv", "kv2", "multi", "esc", "kv_short", "kv_short2", "kv_mixed", "kv_mixed2"]
+UNSTRUCT_SHAPES = ["bare", "qual", "fmt", "target", "kv", "multi", "qual_fmt_multi", "esc", "kv_short", "kv_mixed", "target_kv"]
+STRUCT_SHAPES = ["bare", "qual", "fmt", "kv", "kv2", "multi", "esc", "kv_short", "kv_short2", "kv_mixed", "kv_mixed2", "target",
+                 "target_kv", "target_multi"]
 
 
 def render_stmt(shape, marker, macro, rid, structured, words, indent="    ", ref_last=False):
@@ -70,8 +71,10 @@ def render_stmt(shape, marker, macro, rid, structured, words, indent="    ", ref
         msg += " \\\"quoted\\\" \\\\ end"
     pre = ""
     kvs = ""
-    if shape in ("target", "target_kv"):
+    if shape in ("target", "target_kv", "target_multi"):
         pre = "target: \"app_events\", "
+    if shape == "target_multi":
+        pre = "target: \"app_events\",\n%s    " % indent
     if shape in ("kv", "target_kv"):
         kvs = "attempt = 3"
     if shape == "kv2":
@@ -94,7 +97,7 @@ def render_stmt(shape, marker, macro, rid, structured, words, indent="    ", ref
         if rid is not None:
             msg = "[ref: %d] %s" % (rid, msg)
     kvpart = (kvs + "; ") if kvs else ""
-    if shape in ("multi", "qual_fmt_multi"):
+    if shape in ("multi", "qual_fmt_multi", "target_multi"):
         body = "%s%s!(\n%s    %s%s\"%s\"%s\n%s);\n" % (indent, name, indent, pre, kvpart, msg, args_after, indent)
     else:
         body = "%s%s!(%s%s\"%s\"%s);\n" % (indent, name, pre, kvpart, msg, args_after)
@@ -171,7 +174,13 @@ class Gen:
         total = SIZE_CLASSES[size_class]
         segs = [["pad", "// generated\nuse log::{info, warn, error};\n\n"]]
         for i in range(nstmts):
-            segs.append(["pad", make_pad(rng, total // (nstmts + 1), unicode_p) + "fn f_%d(count: u32, state: &str) {\n" % i])
+            head = make_pad(rng, total // (nstmts + 1), unicode_p) + "fn f_%d(count: u32, state: &str) {\n" % i
+            if structured and rng.random() < 0.25:
+                # an "unusable" reference: the ref key holds something that is not an integer literal; the statement is
+                # neither missing a reference nor ever modified, so for the model it is inert text
+                head += "    %s!(ref = %s; \"unusable reference decoy\");\n" % (
+                    rng.choice(["info", "warn", "log::error"]), rng.choice(["request_id", "\"abc\"", "id.0", "-1"]))
+            segs.append(["pad", head])
             segs.append(self.stmt(structured, ids[i], shapes))
             segs.append(["pad", "}\n"])
         segs.append(["pad", make_pad(rng, total // (nstmts + 1), unicode_p)])
